@@ -319,6 +319,10 @@ def _outer(db, chk, m, cls):
     if len(cs) != 1:
         raise AnalysisError("facade delegation not found")
     bnd = H.bind_call(f3, cs[0])
+
+    for _p, _src, _v in H.rebinds_of_params(fac, ["visualize", "duration_ratio", "num_kernels", "include_memory_kernels", "image_renderer"]):
+        chk.ob("C05.R-facade-integrity", f"facade forwards parameter {_p} unmodified", _v == "default-if-none", ta.loc(fac), found=_src, accepted="no re-binding, or `if p is None: p = <default>`",
+               why="`p = p or default` replaces legitimate falsy values (a threshold of 0, an empty selection) by the default")
     for pn in ("visualize", "duration_ratio", "num_kernels", "include_memory_kernels", "image_renderer"):
         chk.ob("C05.R3-facade", f"facade argument -> parameter {pn}", H.name_id(bnd.get(pn)) == pn, ta.loc(cs[0]), found=ast.unparse(bnd[pn]) if pn in bnd else None, accepted=pn,
                why="the wrapper passes positionally: a swapped position feeds num_kernels as duration_ratio")
